@@ -6,7 +6,7 @@ from hypothesis import strategies as st
 
 from .. import gen
 from ..core import SubCheck, Violation
-from ..oracle import (lib, model_index, poscoded, ra_from_rows, py_sel, sel_kind, lazy_ra, LAZY_MODES, np_rows,
+from ..oracle import (LAZY_CHOICES, lib, model_index, poscoded, ra_from_rows, py_sel, sel_kind, lazy_ra, LAZY_MODES, np_rows,
                       expect_refused, expect_unchanged, snapshot, rows_equal, jsonable)
 from . import c02
 
@@ -192,7 +192,7 @@ def assign_case(draw, tier):
     cells, rkind = addressed(lens, r, c)
     kinds = ["scalar"] if cells is None else [k for k in VALUE_KINDS if make_value(k, cells, rkind, 0) is not None]
     return {"lens": lens, "r": r, "c": c, "vk": draw(st.sampled_from(kinds)),
-            "tlazy": draw(st.sampled_from([0, 0, 0, 1, 2, 3, 4])), "vlazy": draw(st.integers(0, 3))}
+            "tlazy": draw(st.sampled_from(LAZY_CHOICES)), "vlazy": draw(st.integers(0, 3))}
 
 
 # ---------------------------------------------------------------- value semantics on every element dtype
@@ -269,7 +269,7 @@ def assign_dtype_case(draw, tier):
     return {"a": a, "r": draw(gen.rowsel(n, norepeat=True)), "c": draw(gen.colsel(L)),
             "vk": draw(st.sampled_from(["scalar", "flat", "column", "column", "ragged"])),
             "pool": draw(st.lists(e, min_size=1, max_size=6)),
-            "tlazy": draw(st.sampled_from([0, 0, 0, 1, 2, 3, 4])), "vlazy": draw(st.sampled_from([0, 0, 1, 2]))}
+            "tlazy": draw(st.sampled_from(LAZY_CHOICES)), "vlazy": draw(st.sampled_from([0, 0, 1, 2]))}
 
 
 # ---------------------------------------------------------------- boolean ragged mask
@@ -317,7 +317,7 @@ def mask_case(draw, tier):
     mask = draw(st.one_of(st.lists(st.booleans(), min_size=tot, max_size=tot),
                           st.just([False] * tot), st.just([True] * tot)))
     return {"lens": lens, "mask": mask, "vk": draw(st.sampled_from(["scalar", "flat-array", "flat-list"])),
-            "mlazy": draw(st.sampled_from([0, 0, 1, 2, 3, 4])), "tlazy": draw(st.sampled_from([0, 0, 0, 1, 2, 3, 4]))}
+            "mlazy": draw(st.sampled_from(LAZY_CHOICES)), "tlazy": draw(st.sampled_from(LAZY_CHOICES))}
 
 
 # ---------------------------------------------------------------- exhaustive small scope
